@@ -231,6 +231,139 @@ func c19(c *Ctx) {
 		}
 		r.Floor("C19.Z3", 2)
 	}
+	// Z3e: an unanswered peer is skipped, the loop goes on: from the edge on which a measurement is found empty the next
+	// iteration of the filtering loop is still reachable (a `break` would drop every later measurement)
+	if swn != nil && swn.Body() != nil {
+		info := swn.Info()
+		g := c.Graph(swn)
+		n := 0
+		ast.Inspect(swn.Body(), func(nd ast.Node) bool {
+			rs, ok := nd.(*ast.RangeStmt)
+			if !ok {
+				return true
+			}
+			// "the next iteration": the first statement of the body is reachable again
+			head := -1
+			if len(rs.Body.List) > 0 {
+				head = g.VertexOf(rs.Body.List[0])
+			}
+			for _, v := range g.V {
+				for _, e := range v.Succ {
+					if e.Cond == nil || e.Tag != nil || !(rs.Body.Pos() <= e.Cond.Pos() && e.Cond.End() <= rs.Body.End()) {
+						continue
+					}
+					empty := false
+					for _, fct := range cfgx.ExpandCond(e.Cond, e.Val) {
+						if cc, isC := ast.Unparen(fct.Expr).(*ast.CallExpr); isC && fct.Val {
+							if fn := astx.Callee(info, cc); fn != nil && fname(fn) == "IsZero" {
+								empty = true
+							}
+						}
+					}
+					if !empty {
+						continue
+					}
+					n++
+					r.Check(head >= 0 && (g.Reach(e.To, nil, nil)[head] || e.To == head), "C19.Z3", swn.Name(), "an unanswered peer does not end the filtering", c.P.Pos(e.Cond.Pos()), "the next iteration is reachable from the 'empty measurement' edge",
+						"the loop that filters unanswered peers is left at the first empty measurement: every measurement after it (on the join path: the node being joined, which is appended last) is never compared with the tolerance")
+				}
+			}
+			return true
+		})
+		r.Check(n >= 1, "C19.Z3", swn.Name(), "empty-measurement test found in the filtering loop", c.P.Pos(swn.Node().Pos()), itoa(n), "synchronizedWithNetwork no longer filters unanswered peers inside a loop")
+	}
+	// Z3f: collectTime waits for every measurement: wg.Add is executed by the spawning goroutine before `go` (an Add inside
+	// the spawned function races with Wait, which can then return before anything was measured)
+	if ct := c.P.Func("timesafeguard.collectTime"); ct != nil && ct.Body() != nil {
+		info := ct.Info()
+		g := c.Graph(ct)
+		isWG := func(call *ast.CallExpr, name string) bool {
+			fn := astx.Callee(info, call)
+			return fn != nil && fn.FullName() == "(*sync.WaitGroup)."+name
+		}
+		nGo := 0
+		for _, v := range g.Nodes() {
+			gs, ok := v.Node.(*ast.GoStmt)
+			if !ok {
+				continue
+			}
+			nGo++
+			okAdd := g.DominatedBy(v.ID, func(x *cfgx.Vertex) bool {
+				if x.Node == nil {
+					return false
+				}
+				if _, isGo := x.Node.(*ast.GoStmt); isGo {
+					return false
+				}
+				for _, call := range astx.Calls(x.Node, false) {
+					if isWG(call, "Add") {
+						return true
+					}
+				}
+				return false
+			})
+			_ = gs
+			r.Check(okAdd, "C19.Z3", ct.Name(), "wg.Add precedes the goroutine", c.P.Pos(gs.Pos()), "a WaitGroup.Add in the spawning goroutine dominates `go`",
+				"the WaitGroup counter is raised inside the spawned goroutine (or not at all): Wait can return before any peer was asked, the empty results look like unanswered peers and no clock is checked")
+		}
+		waits := 0
+		for _, call := range astx.Calls(ct.Body(), false) {
+			if isWG(call, "Wait") {
+				waits++
+			}
+		}
+		r.Check(nGo >= 1 && waits >= 1, "C19.Z3", ct.Name(), "measurements are awaited", c.P.Pos(ct.Node().Pos()), itoa(nGo)+" goroutine(s), "+itoa(waits)+" Wait", "collectTime does not wait for its measuring goroutines")
+	}
+	// Z3g: the peers that are asked are the peers that were given: in the exported entry points, what is appended to the
+	// list handed to collectTime is the range variable of the loop over the input (not the node's own address)
+	if ct := c.P.Func("timesafeguard.collectTime"); ct != nil {
+		for _, fi := range c.P.FuncsIn("timesafeguard") {
+			if fi.Body() == nil || fi.Obj == nil || !fi.Obj.Exported() {
+				continue
+			}
+			info := fi.Info()
+			for _, call := range callsIn(fi, func(fn *types.Func, _ *ast.CallExpr) bool { return fn == ct.Obj }) {
+				if len(call.Args) < 1 {
+					continue
+				}
+				lid, ok := ast.Unparen(call.Args[0]).(*ast.Ident)
+				if !ok {
+					continue
+				}
+				lo := astx.Obj(info, lid)
+				ast.Inspect(fi.Body(), func(nd ast.Node) bool {
+					rs, ok := nd.(*ast.RangeStmt)
+					if !ok || rs.Value == nil {
+						return true
+					}
+					vid, ok := rs.Value.(*ast.Ident)
+					if !ok {
+						return true
+					}
+					vo := astx.Obj(info, vid)
+					ast.Inspect(rs.Body, func(m ast.Node) bool {
+						as, ok := m.(*ast.AssignStmt)
+						if !ok || len(as.Lhs) != 1 || len(as.Rhs) != 1 {
+							return true
+						}
+						id, ok := as.Lhs[0].(*ast.Ident)
+						if !ok || astx.Obj(info, id) != lo {
+							return true
+						}
+						ap, ok := ast.Unparen(as.Rhs[0]).(*ast.CallExpr)
+						if !ok || astx.Builtin(info, ap) != "append" || len(ap.Args) != 2 {
+							return true
+						}
+						eid, isID := ast.Unparen(ap.Args[1]).(*ast.Ident)
+						r.Check(isID && astx.Obj(info, eid) == vo, "C19.Z3", fi.Name(), "the peers asked are the peers given", c.P.Pos(as.Pos()), "append("+lid.Name+", <range variable>)",
+							"the list of peers whose clocks are collected is filled with something else than the peer under iteration (e.g. the node's own address): no other node's clock is looked at")
+						return true
+					})
+					return true
+				})
+			}
+		}
+	}
 	// Z5b: the answering side reports its clock as it is: Status.CurrentTime is time.Now() itself (not rounded or
 	// otherwise transformed: the bound assumes the reported instant lies inside the request interval)
 	if hs := c.P.Func("api.(*HTTP).handleStatus"); hs != nil {
